@@ -88,7 +88,7 @@ Red3 == IF Quick THEN <<"or", "and", "eq", "sub", "mul", "neg", "not", "getN", "
                "contains", "isEmpty", "like", "is", "isIn", "lessThan", "set1", "rec1", "if">>
 Depth3Ok(k) ==
   UNION {{YMk(k, Put(Atoms(v, k), i, YMk(j, Put(Atoms(v, j), i2, YMk(m, Atoms(v, m)))))) :
-            i \in 1..Arity(k), i2 \in 1..Arity(j), m \in SeqSet(Red3), v \in {"v", "n"}} : j \in SeqSet(Red3)}
+            i \in 1..Arity(k), i2 \in 1..Arity(j), m \in SeqSet(Red3), v \in (IF Quick THEN {"n"} ELSE {"v", "n", "b"})} : j \in SeqSet(Red3)}
 
 \* ------------------------------------------------------------------ chains
 RECURSIVE ApplyUn(_, _)
@@ -141,7 +141,7 @@ LongUses(x) ==
 Cps == IF Quick THEN {97, 34, 92, 10, 0, 42, 128512, 8238, 39, 233, 769, 32, 9, 13, 127, 123, 47}
        ELSE {97, 34, 92, 10, 0, 42, 128512, 8238, 39, 233, 769, 32, 9, 13, 127, 123, 47, 36, 65279, 117, 120}
 SeqsUpTo(Sy, n) == UNION {[1..k -> Sy] : k \in 0..n}
-StrN == 2
+StrN == IF Quick THEN 2 ELSE 3
 Strs == SeqsUpTo(Cps, StrN)
 PatSyms == {97, YWild, 42, 92, 34}
 Pats == SeqsUpTo(PatSyms, IF Quick THEN 3 ELSE 4)
@@ -171,8 +171,9 @@ PScopes(u, g) == << AnyS, <<"eq", u>>, <<"in", g>>, <<"is", "User">>, <<"is", "N
 AScopes == << AnyS, <<"eq", Av>>, <<"eq", Ae>>, <<"in", Av>>, <<"inset", <<>>>>, <<"inset", <<Av>>>>,
               <<"inset", <<Av, Ae>>>>, <<"inset", <<Ae, Av, Av>>>> >>
 ScopeCases(pi) ==
-  {<<YPol(eff, <<>>, PScopes(Ua, Gg)[pi], AScopes[ai], PScopes(Dd, Gg)[ri], conds)>> :
-     eff \in {"permit", "forbid"}, ai \in 1..Len(AScopes), ri \in 1..9, conds \in {<<>>, <<<<"unless", Pn>>>>}}
+  {<<YPol(eff, <<>>, PScopes(Ua, Gg)[pi], AScopes[ai], PScopes(Dd, Gg)[ri],
+          IF (Quick /\ (ai + ri) % 2 = 0) \/ (~Quick /\ cv = 0) THEN <<>> ELSE <<<<"unless", Pn>>>>)>> :
+     eff \in {"permit", "forbid"}, ai \in 1..Len(AScopes), ri \in 1..9, cv \in (IF Quick THEN {0} ELSE {0, 1})}
 
 AnnKeys == <<"id", "a", "if", "permit">>
 AnnVals == << <<"none">>, <<"s", <<>>>>, <<"s", <<118>>>>, <<"s", <<34, 10, 128512>>>> >>
@@ -284,6 +285,7 @@ Sane ==
      /\ \A s \in 1..3 : SxDepthOk(SxSetToks(c.pols, SxStyles[s]), 1, 0)
      /\ Len(SxSetToks(c.pols, "min")) <= Len(SxSetToks(c.pols, "full"))
      /\ Len(SxSetToks(c.pols, "min")) <= Len(SxSetToks(c.pols, "red"))
+     /\ Len(SxSetToks(c.pols, "red")) <= Len(SxSetToks(c.pols, "redc"))
      /\ Len(SxSetCore(c.pols)) = Len(c.pols)
      \* desugaring a core form is the identity on everything but boolean folding: core forms are a fixed point
      /\ \A i \in 1..Len(c.pols) : SxPolicyCore(c.pols[i])[1] \in {"permit", "forbid"}
@@ -291,7 +293,7 @@ Sane ==
 \* ---------------------------------------------------------------- binding G
 Dump ==
   IF c'.kind = "ok"
-  THEN PrintT("CASE " \o ToJson([kind |-> "ok", pols |-> c'.pols, coord |-> coord,
+  THEN PrintT("CASE " \o ToJson([kind |-> "ok", pols |-> c'.pols, coord |-> coord, styles |-> SxStyles,
                                  toks |-> [s \in 1..3 |-> SxSetToks(c'.pols, SxStyles[s])]]))
   ELSE PrintT("CASE " \o ToJson([kind |-> "reject", coord |-> coord,
                                  toks |-> IF c'.idx <= Len(Rejects) THEN RejectWrap(Rejects[c'.idx])
